@@ -43,8 +43,8 @@ Theorem C17_window_covers : forall m ps off len, 0 < ps -> off + len + ps < W64 
     page_base <= off /\ off + len <= page_base + msize /\ page_base + msize < off + len + ps.
 Proof. exact window_covers_lemma. Qed.
 
-(* every guarded access operation (write, read, slice guard, typed store/load, array element
-   store/load, array copy_from/copy_to) that completes on an on-demand region touched only bytes
+(* every guarded access operation (write, read, read_volatile_from, write_volatile_to, slice guard,
+   slice copy_from/copy_to, typed store/load, array element store/load, array copy_from/copy_to) that completes on an on-demand region touched only bytes
    inside the window the same operation had mapped: whole pages, with the map ioctl for exactly
    (first grant, page count) and the mmap of exactly that many bytes at the index the device returned
    in the operation's own log *)
